@@ -867,7 +867,7 @@ func (r *siteRig) genReq(id, site string) *sreq {
 	default:
 		q.path = []string{"/p", "/p/x", "/p/y.html"}[st.Draw(3)]
 	}
-	q.query = "q=" + []string{"1", "%7Bhost%7D", "{host}", "a%20b", "{~ck}", "10.0.0.1"}[st.Draw(6)]
+	q.query = "q=" + []string{"1", "%7Bhost%7D", "{host}", "a%20b", "{~ck}", "10.0.0.1", "a%0Ab", "x%0D%0AR=q0%20forged"}[st.Draw(8)] // (a line break in request text must not break the line: one request, one line)
 	if q.archiveOf != "" {
 		q.query = "archive=" + q.archiveOf
 		r.c.Probe("directory-archive-requested")
@@ -1734,7 +1734,8 @@ func (r *siteRig) judgeLog(lines []string) {
 		}
 		qv := strings.TrimPrefix(q.query, "q=")
 		if u, err := urlUnescape(qv); err == nil {
-			qv = u
+			// (line breaks are written as the two characters \n, \r: an entry is one line)
+			qv = strings.NewReplacer("\r", `\r`, "\n", `\n`).Replace(u)
 		}
 		ck := strings.TrimPrefix(hv("Cookie"), "ck=")
 		want := "R=" + q.id
